@@ -353,14 +353,14 @@ func (r *resolver) applyDeviation(y *Module, d *Deviation) error {
 	}
 	if d.Add != nil {
 		if err := applicable(d.Add.configPtr != nil || d.Add.mandatoryPtr != nil,
-			d.Add.maxElementsPtr != nil || d.Add.minElementsPtr != nil,
+			d.Add.maxElementsPtr != nil || d.Add.minElementsPtr != nil || d.Add.unboundedPtr != nil,
 			d.Add.units != "" || d.Add.HasDefault(), len(d.Add.unique) > 0, len(d.Add.musts) > 0); err != nil {
 			return err
 		}
 	}
 	if d.Replace != nil {
 		if err := applicable(d.Replace.configPtr != nil || d.Replace.mandatoryPtr != nil,
-			d.Replace.maxElementsPtr != nil || d.Replace.minElementsPtr != nil,
+			d.Replace.maxElementsPtr != nil || d.Replace.minElementsPtr != nil || d.Replace.unboundedPtr != nil,
 			d.Replace.units != "" || d.Replace.HasDefault() || d.Replace.dtype != nil, false, false); err != nil {
 			return err
 		}
@@ -384,11 +384,16 @@ func (r *resolver) applyDeviation(y *Module, d *Deviation) error {
 			}
 			hasDets.setMandatory(*(d.Add).mandatoryPtr)
 		}
-		if d.Add.maxElementsPtr != nil {
-			if hasListDets.IsMaxElementsSet() {
+		if d.Add.maxElementsPtr != nil || d.Add.unboundedPtr != nil {
+			// "max-elements unbounded" is a max-elements statement too
+			if hasListDets.IsMaxElementsSet() || hasListDets.IsUnboundedSet() {
 				return fmt.Errorf("max-elements already set on %s", d.Ident())
 			}
-			hasListDets.setMaxElements(*(d.Add).maxElementsPtr)
+			if d.Add.maxElementsPtr != nil {
+				hasListDets.setMaxElements(*(d.Add).maxElementsPtr)
+			} else {
+				hasListDets.setUnbounded(*(d.Add).unboundedPtr)
+			}
 		}
 		if d.Add.minElementsPtr != nil {
 			if hasListDets.IsMinElementsSet() {
@@ -439,11 +444,17 @@ func (r *resolver) applyDeviation(y *Module, d *Deviation) error {
 			}
 			hasDets.setMandatory(*(d.Replace).mandatoryPtr)
 		}
-		if d.Replace.maxElementsPtr != nil {
-			if !hasListDets.IsMaxElementsSet() {
+		if d.Replace.maxElementsPtr != nil || d.Replace.unboundedPtr != nil {
+			if !hasListDets.IsMaxElementsSet() && !hasListDets.IsUnboundedSet() {
 				return fmt.Errorf("max-elements not set on %s", d.Ident())
 			}
-			hasListDets.setMaxElements(*(d.Replace).maxElementsPtr)
+			// the number and "unbounded" replace one another
+			clearMaxElements(target, true, true)
+			if d.Replace.maxElementsPtr != nil {
+				hasListDets.setMaxElements(*(d.Replace).maxElementsPtr)
+			} else {
+				hasListDets.setUnbounded(*(d.Replace).unboundedPtr)
+			}
 		}
 		if d.Replace.minElementsPtr != nil {
 			if !hasListDets.IsMinElementsSet() {
